@@ -186,6 +186,9 @@ func (fc *FnCtx) callByContract(fr *Frame, st *State, reach string, con *Contrac
 			fc.ghostAssignTargets(env, cl.Expr)
 			t = env.evalBool(cl.Expr)
 		} else {
+			if fc.mentionsUnusedVolatile(cl.Text) {
+				continue // a fact about an observation register this function never looks at
+			}
 			t = env.evalBool(cl.Expr)
 		}
 		fc.sc.assume(tImp(reach, t))
@@ -248,6 +251,9 @@ func (fc *FnCtx) callByContractIface(fr *Frame, st *State, reach string, con *Co
 		fc.havocTargets(st, t2)
 	}
 	for _, cl := range con.Ensures {
+		if fc.mentionsUnusedVolatile(cl.Text) {
+			continue
+		}
 		env := fc.specEnv(st, pre, vars, con.Pkg, nil, cl.Text)
 		fc.sc.assume(tImp(reach, env.evalBool(cl.Expr)))
 	}
